@@ -43,6 +43,10 @@ TECHNIQUE += '; finite-domain evaluation of the terminator flag'
 TECHNIQUE += '; who-may-swallow rule for StopIteration inside frame parsers; look-ahead transparency on a model LineIterator'
 EXPLANATION += ' Added: (R11) the look-ahead of every frame loop (blank-line skipping, push-back) leaves the input unchanged, evaluated on a model LineIterator; (R12) a PDB CONECT record naming an atom outside the frame raises (no membership guard around the bond store); (R13) in the frame parsers of the trajectory formats a `try` whose handler accepts StopIteration without raising covers record-head reads only -- never a call that is handed the iterator (one frozen exception: the FCHK field reader, whose dropped field raises downstream).'
 # --- end metadata batch 7
+# --- metadata added for batch 8
+TECHNIQUE += '; state clauses borrowed from C16'
+EXPLANATION += ' R13 treats `next(lit, default)` inside a record like a tolerant `try` (legitimate only as a loop-head read whose default ends the loop) and allows a record-head helper inside a tolerant `try`; the frame parser may be a function load_one hands its arguments to unchanged (R6, R11). Added: (R14, R15) nothing is carried from one frame to the next through module-level objects or memoised results (C16-R1 / R3).'
+# --- end metadata batch 8
 
 
 def run(ctx):
